@@ -46,3 +46,108 @@ Example C11_int8_limits :
   parse_int (s2l "-128") 10 8 = inl (-128)%Z /\ parse_int (s2l "-129") 10 8 = inr NERange /\
   parse_uint (s2l "-1") 10 8 = inr NESyntax /\ parse_int (s2l "7f") 16 8 = inl 127%Z.
 Proof. vm_compute. repeat split; reflexivity. Qed.
+
+(* ---- added by bin/mkprops (batch 2) ---- *)
+From GoFlags Require Import Base.Str Base.Utf8 Golib.Strings Golib.Strconv Model.Types Model.Tag Model.Scan Model.Lookup Model.Convert Model.State Model.Closest Model.Help Model.Parse Model.Ini Model.Complete.
+From GoFlags Require Import Proofs.RequiredSpec Proofs.StrconvSpec.
+
+(* for every integer kind the conversion accepts exactly the texts denoting an integer in the option's base within that kind's range, and stores exactly it *)
+Theorem C11_integer_kinds_exact :
+  forall (orc : oracles) (base_tag : str) (b : Z) (v : str) (i : ikind),
+         get_base base_tag = inl b ->
+         good_base b ->
+         (forall z : Z,
+          convert_kind orc base_tag v (KInt i) = Ok (inl (VInt z)) <->
+          (if ikind_signed i
+           then
+            int_denotes (Z.to_N b) v z /\
+            (- 2 ^ (Z.of_N (ikind_bits i) - 1) <= z < 2 ^ (Z.of_N (ikind_bits i) - 1))%Z
+           else uint_denotes (Z.to_N b) v (Z.to_N z) /\ (0 <= z < 2 ^ Z.of_N (ikind_bits i))%Z)) /\
+         ((exists z : Z, convert_kind orc base_tag v (KInt i) = Ok (inl (VInt z))) \/
+          (exists msg : str, convert_kind orc base_tag v (KInt i) = Ok (inr msg))) /\
+         Z.of_N (ikind_bits i) =
+         match i with
+         | I8 | U8 => 8%Z
+         | I16 | U16 => 16%Z
+         | I32 | U32 => 32%Z
+         | _ => 64%Z
+         end.
+Proof. exact @C11_kind_exact. Qed.
+Print Assumptions C11_integer_kinds_exact.
+
+Theorem C11_integer_total :
+  forall (orc : oracles) (base_tag v : str) (i : ikind),
+         (exists z : Z, convert_kind orc base_tag v (KInt i) = Ok (inl (VInt z))) \/
+         (exists msg : str, convert_kind orc base_tag v (KInt i) = Ok (inr msg)).
+Proof. exact @C11_kind_total. Qed.
+Print Assumptions C11_integer_total.
+
+Theorem C11_default_base_10 :
+  get_base [] = inl 10%Z /\ good_base 10.
+Proof. exact @C11_default_base. Qed.
+Print Assumptions C11_default_base_10.
+
+Theorem C11_unparsable_base_tag :
+  forall (orc : oracles) (base_tag e v : str) (i : ikind),
+         get_base base_tag = inr e -> convert_kind orc base_tag v (KInt i) = Ok (inr e).
+Proof. exact @C11_bad_base_tag. Qed.
+Print Assumptions C11_unparsable_base_tag.
+
+(* pointers, slices and key:value maps convert exactly when their scalar parts do (map split at the first colon) *)
+Theorem C11_pointer_slice_map :
+  forall (orc : oracles) (b v : str) (cur : value),
+         (forall (k : kind) (v' : value),
+          convert orc b v (TPtr k) cur = Ok (v', None) <->
+          (exists x : value, convert_kind orc b v k = Ok (inl x) /\ v' = VPtr (Some x))) /\
+         (forall (k : kind) (v' : value) (e : str),
+          convert orc b v (TPtr k) cur = Ok (v', Some e) <->
+          convert_kind orc b v k = Ok (inr e) /\ v' = VPtr (Some (pointee_or_zero k cur))) /\
+         (forall (k : kind) (t : str),
+          convert orc b v (TPtr k) cur = Panic t <-> convert_kind orc b v k = Panic t) /\
+         (forall (k : kind) (v' : value),
+          convert orc b v (TSlice (TScalar k)) cur = Ok (v', None) <->
+          (exists x : value,
+             convert_kind orc b v k = Ok (inl x) /\ v' = VSlice false (ValueSpec.slice_elems cur ++ [x]))) /\
+         (forall (k : kind) (v' : value) (e : str),
+          convert orc b v (TSlice (TScalar k)) cur = Ok (v', Some e) <->
+          convert_kind orc b v k = Ok (inr e) /\ v' = cur) /\
+         (forall (k : kind) (t : str),
+          convert orc b v (TSlice (TScalar k)) cur = Panic t <-> convert_kind orc b v k = Panic t) /\
+         (forall (kk kv : kind) (v' : value),
+          convert orc b v (TMap kk kv) cur = Ok (v', None) <->
+          (exists x y : value,
+             convert_kind orc b (fst (ValueSpec.map_split v)) kk = Ok (inl x) /\
+             convert_kind orc b (snd (ValueSpec.map_split v)) kv = Ok (inl y) /\
+             v' = VMap false (map_set (ValueSpec.map_elems cur) x y))) /\
+         (forall (kk kv : kind) (v' : value) (e : str),
+          convert orc b v (TMap kk kv) cur = Ok (v', Some e) <->
+          v' = cur /\
+          (convert_kind orc b (fst (ValueSpec.map_split v)) kk = Ok (inr e) \/
+           (exists x : value,
+              convert_kind orc b (fst (ValueSpec.map_split v)) kk = Ok (inl x) /\
+              convert_kind orc b (snd (ValueSpec.map_split v)) kv = Ok (inr e)))) /\
+         (forall (kk kv : kind) (t : str),
+          convert orc b v (TMap kk kv) cur = Panic t <->
+          convert_kind orc b (fst (ValueSpec.map_split v)) kk = Panic t \/
+          (exists x : value,
+             convert_kind orc b (fst (ValueSpec.map_split v)) kk = Ok (inl x) /\
+             convert_kind orc b (snd (ValueSpec.map_split v)) kv = Panic t)) /\
+         (forall (ty : vtype) (e : err), convert orc b v ty cur <> Err e).
+Proof. exact @C11_through_pointer_slice_map. Qed.
+Print Assumptions C11_pointer_slice_map.
+
+Theorem C11_slice_of_pointers :
+  forall (orc : oracles) (b v : str) (k : kind) (cur : value),
+         (forall v' : value,
+          convert orc b v (TSlice (TPtr k)) cur = Ok (v', None) <->
+          (exists x : value,
+             convert_kind orc b v k = Ok (inl x) /\
+             v' = VSlice false (ValueSpec.slice_elems cur ++ [VPtr (Some x)]))) /\
+         (forall (v' : value) (e : str),
+          convert orc b v (TSlice (TPtr k)) cur = Ok (v', Some e) <->
+          convert_kind orc b v k = Ok (inr e) /\ v' = cur) /\
+         (forall t : str, convert orc b v (TSlice (TPtr k)) cur = Panic t <-> convert_kind orc b v k = Panic t) /\
+         (forall e : err, convert orc b v (TSlice (TPtr k)) cur <> Err e).
+Proof. exact @C11_through_slice_of_pointers. Qed.
+Print Assumptions C11_slice_of_pointers.
+
